@@ -6,6 +6,7 @@ mod gen;
 mod httpd;
 mod inst;
 mod lib_drv;
+mod miri;
 mod proc;
 mod scn;
 mod refimpl;
